@@ -1,5 +1,6 @@
 """Module containing the NxScope dummy interface implementation."""
 
+import copy
 import math
 import queue
 import random
@@ -311,7 +312,8 @@ class DummyDev(ICommInterface):
         # default device
         if not channels:
             chmax = DUMMY_DEV_CHMAX
-            channels = DUMMY_DEV_CHANNELS
+            # every instance needs its own channel objects
+            channels = copy.deepcopy(DUMMY_DEV_CHANNELS)
         assert channels
 
         self._dummydev = Device(chmax, flags, rxpadding, channels)
